@@ -352,6 +352,55 @@ func runC05(p *Prog, r *Report) {
 		r.Check(lit == nil, "C05.R2", tn+": the state is moved only on a request's own path", "-", "no function literal (timer, goroutine, deferred closure) calls a routine that sets the state",
 			"a function literal calls a state-changing routine"+atInstr(p, lit)+": a timer or goroutine armed for one period can fire during a later one (tripped again in the meantime) and end that fallback period early")
 	}
+	// the fallback is never the protected handler itself
+	if cb.fallbackF != "" && cb.nextF != "" {
+		var bad *ssa.Store
+		nF := 0
+		for _, st := range p.StoresToField(cb.typ, cb.fallbackF) {
+			nF++
+			var walk func(v ssa.Value, d int) bool
+			walk = func(v ssa.Value, d int) bool {
+				if d > 5 {
+					return false
+				}
+				switch x := stripConv(v).(type) {
+				case *ssa.Phi:
+					for _, e := range x.Edges {
+						if walk(e, d+1) {
+							return true
+						}
+					}
+				case *ssa.UnOp:
+					if nt, f, _, ok := fieldOf(x.X); ok && nt != nil && nt.Obj() == cb.typ.Obj() && f == cb.nextF {
+						return true
+					}
+					if al, ok := x.X.(*ssa.Alloc); ok {
+						if cv := cellContent(al); cv != nil {
+							return walk(cv, d+1)
+						}
+					}
+					if fv, ok := x.X.(*ssa.FreeVar); ok {
+						// a captured variable assigned in the closure
+						for _, ref := range *fv.Referrers() {
+							if s2, ok := ref.(*ssa.Store); ok && s2.Addr == ssa.Value(fv) && walk(s2.Val, d+1) {
+								return true
+							}
+						}
+					}
+				}
+				return false
+			}
+			if walk(st.Val, 0) {
+				bad = st
+			}
+		}
+		var at ssa.Instruction
+		if bad != nil {
+			at = bad
+		}
+		r.Check(bad == nil && nF > 0, "C05.R3", tn+": the fallback is never the protected handler", "-", fmt.Sprintf("%d store(s) of the fallback, none takes the wrapped handler", nF),
+			"the wrapped handler is installed as the fallback"+atInstr(p, at)+": while tripped every request is still delivered to the backend")
+	}
 	// ---- R3 shielding ----
 	for _, ret := range Returns(cb.admit) {
 		k, isC := constBool(ReturnOperand(ret, 0))
@@ -921,6 +970,8 @@ func runC12(p *Prog, r *Report) {
 // ---------------- C18 ----------------
 
 func runC18(p *Prog, r *Report) {
+	// R11: the breaker does not deadlock on itself while changing state (shared with C05.R6)
+	r.Borrow(p, runC05, map[string]string{"C05.R6": "C18.R11"}, nil)
 	// R10: the condition reads the current window only: the counters' clean-up visits every slot that may be stale (shared with C17.R4)
 	r.Borrow(p, runC17, map[string]string{"C17.R4": "C18.R10"}, nil)
 	// R9: the condition is evaluated over all completed responses: Record counts every one of them (shared with C17.R10)
@@ -1330,6 +1381,7 @@ func c18FunctionMap(p *Prog, r *Report, funcs map[string]*ssa.Function) {
 func mutantsC05() []Mutant {
 	f := "cbreaker/cbreaker.go"
 	return []Mutant{
+		{Name: "nil-fallback-becomes-next", File: "cbreaker/options.go", Old: "\t\tc.fallback = h\n", New: "\t\tif h == nil {\n\t\t\th = c.next\n\t\t}\n\t\tc.fallback = h\n", Expect: "C05.R3"},
 		{Name: "retrip-keeps-old-deadline", File: "cbreaker/cbreaker.go", Old: "\tc.state = state\n\tc.until = until\n", New: "\tif c.state == stateRecovering && state == stateTripped {\n\t\tc.state = state\n\t\tc.exec(c.onTripped)\n\t\treturn\n\t}\n\tc.state = state\n\tc.until = until\n", Expect: "C05.R2"},
 		{Name: "fallback-duration-adjusted-after-options", File: "cbreaker/cbreaker.go", Old: "\tcondition, err := parseExpression(expression)\n", New: "\tcb.fallbackDuration += cb.checkPeriod\n\tcondition, err := parseExpression(expression)\n", Expect: "C05.R8"},
 		{Name: "options-requests-bypass-the-breaker", File: "cbreaker/cbreaker.go", Old: "\tif c.activateFallback(w, req) {\n", New: "\tif req.Method == http.MethodOptions {\n\t\tc.next.ServeHTTP(w, req)\n\t\treturn\n\t}\n\tif c.activateFallback(w, req) {\n", Expect: "C05.R3"},
